@@ -79,6 +79,25 @@ def show_pat(p, ws=" "):
     return "(" + head + "".join(f"{ws}@{f.args[0].decode()}{show_fspec(f.args[1], ws)}" for f in fs) + ")"
 
 
+def poison(text):
+    """Definitions that parse but are rejected by the interpreter AFTER the capture names of `text` were registered
+    (unknown class / variable before its capture / name used twice), through both compile entry points: whatever
+    state such a failure leaves behind must not reach the next compile (seeded change C08-4)."""
+    import re as _re
+
+    from pyoak.match import pattern as P
+
+    names = list(dict.fromkeys(_re.findall(r"->\s*([A-Za-z_][A-Za-z0-9_]*)", text)))[:4]
+    for c in names:
+        for bad in (f"(* @zz_a -> {c} @zz_b=(ZzNoSuchClass))", f"(* @zz_a -> {c} @zz_b=$zz_undefined)",
+                    f"(* @zz_a -> {c} @zz_b -> {c})"):
+            try:
+                P.validate_pattern(bad)
+                P.NodeMatcher.from_pattern(bad)
+            except Exception:  # noqa: BLE001
+                pass
+
+
 # ----------------------------------------------------------------------------------------------- generation
 def pystr_of(v):
     """str(value) for the simple value kinds, else None"""
@@ -548,6 +567,8 @@ def impl(t, case):
                         pass
         except IndexError:
             pass    # a shrunk case whose history refers to dropped rules / targets
+    for _, txt in rules:
+        poison(txt)
     status = [kind_of_message(P.validate_pattern(txt)[1]) for _, txt in rules]
     matchers = [P.NodeMatcher.from_pattern(txt)[0] for _, txt in rules]
     good = [(n, txt) for (n, txt), m in zip(rules, matchers) if m is not None]
